@@ -60,12 +60,18 @@ class Ctx:
 # build steps
 # ---------------------------------------------------------------------------------------------
 def ensure_coq_makefile():
-    if not os.path.exists(os.path.join(COQ, "Makefile")):
-        files = []
-        for d in ("Model", "Spec", "Proofs", "Props"):
-            for r, _, fs in os.walk(os.path.join(COQ, d)):
-                files += [os.path.relpath(os.path.join(r, f), COQ) for f in fs if f.endswith(".v")]
-        sh(["coq_makefile", "-f", "_CoqProject"] + sorted(files) + ["-o", "Makefile"], cwd=COQ)
+    """(re)generate coq/Makefile whenever the set of .v files changed"""
+    files = []
+    for d in ("Model", "Spec", "Proofs", "Props"):
+        for r, _, fs in os.walk(os.path.join(COQ, d)):
+            files += [os.path.relpath(os.path.join(r, f), COQ) for f in fs if f.endswith(".v")]
+    files = sorted(files)
+    stamp = os.path.join(COQ, ".filelist")
+    old = open(stamp).read().split("\n") if os.path.exists(stamp) else None
+    if old != files or not os.path.exists(os.path.join(COQ, "Makefile")):
+        sh(["coq_makefile", "-f", "_CoqProject"] + files + ["-o", "Makefile"], cwd=COQ)
+        with open(stamp, "w") as f:
+            f.write("\n".join(files))
 
 
 def forbidden_tokens():
@@ -84,6 +90,24 @@ def forbidden_tokens():
 
 
 def check_proofs(ctx, prop_file):
+    """prop_file may name several statement files joined by '+' (e.g. "C07+C07par"): all are checked"""
+    parts = prop_file.split("+")
+    if len(parts) == 1:
+        return check_proofs_one(ctx, prop_file)
+    res = dict(ok=True, obligations=0, discharged=0, failed=[], cmd="", log="", theorems=[])
+    for pf in parts:
+        r = check_proofs_one(ctx, pf)
+        res["ok"] = res["ok"] and r["ok"]
+        res["obligations"] += r["obligations"]
+        res["discharged"] += r["discharged"]
+        res["failed"] += r["failed"]
+        res["theorems"] += r["theorems"]
+        res["cmd"] += ("; " if res["cmd"] else "") + r["cmd"]
+        res["log"] += r["log"][-1500:]
+    return res
+
+
+def check_proofs_one(ctx, prop_file):
     """Build Props/<prop_file>.v and everything it depends on; parse Print Assumptions.
     Returns dict(ok, obligations, discharged, failed, cmd, log)."""
     ensure_coq_makefile()
